@@ -86,6 +86,25 @@ def run(v):
                                 driver={"defs": D.alt_family(SEED + 1062, 20, budget=10**9) + D.adj_family(SEED + 1063, 12, budget=10**9),
                                         "n": 8000 if q else 150000, "gen": lambda rnd, d: [("line", linegen.group_line(rnd, d, 0.8))]})
     cov = merge_cov(cov, gcov, "groupline")
+    # a validation attached to a whole group under a repetition: refused occurrences fail the run with the guard's message
+    def enrich_g(cases, out):
+        rows = list(read_ndjson(cases))
+        table = {(c["def"], tuple(i["txt"] for i in c["line"])): c["expect"]["class"] for c in rows}
+        n = 0
+        with open(out, "w") as w:
+            for c in rows:
+                if c["expect"]["class"] == "stderr" and not c.get("outside"):
+                    txt = [i["txt"] for i in c["line"]]
+                    # the refused value is the only thing wrong with the line: repaired, the specification accepts it
+                    if "2" in txt and table.get((c["def"], tuple("1" if t == "2" else t for t in txt))) == "ok":
+                        c["expect"]["carries"] = "GUARDMSG-"
+                        n += 1
+                w.write(json.dumps(c) + "\n")
+        return {"cases_requiring_the_guard_message": n}
+    ggcov = run_cmdline_property(v, D.gguard_family(SEED + 71, 8 if q else 24, maxlen=4 if q else 5, budget=3000 if q else 30000), None,
+                                 replay_cfg="MC_GroupLine_replay.cfg", module="MC_GroupLine", signature=cmdline_sig.signature,
+                                 trace_module="GroupLineTrace", name="C06gg", enrich=enrich_g)
+    cov = merge_cov(cov, ggcov, "group_guard")
     # environment-backed members of choices: a set-but-invalid variable is not absence
     efam = D.alt_env_family(SEED + 64, 16 if q else 80, maxlen=2 if q else 3, budget=1500 if q else 12000)
     ecov = run_cmdline_property(v, efam, None, replay_cfg="MC_GroupLine_replay.cfg", module="MC_GroupLine",
